@@ -342,6 +342,23 @@ func ruleCIDTaint(c *Ctx) {
 		}
 		c.check(bad == "", fnName(fn), what, p.InstrPos(in), fmt.Sprintf("%d leaves, none derived from the connection id or an expanded resource name", len(leaves)), bad)
 	}
+	// error objects travel to the client as they are: a message composed in the gateway names no expanded id
+	fMsg := p.Field("reserr.Error.Message")
+	for _, fn := range p.Repo {
+		top := TopLevel(fn)
+		if top.Pkg == nil || fMsg == nil || (top.Pkg.Pkg.Name() != "server" && top.Pkg.Pkg.Name() != "rescache") {
+			continue
+		}
+		allInstrs(fn, func(in ssa.Instruction) {
+			if st, ok := in.(*ssa.Store); ok {
+				if fa, ok := st.Addr.(*ssa.FieldAddr); ok && fieldOfAddr(fa) == fMsg {
+					if _, isC := st.Val.(*ssa.Const); !isC {
+						check(fn, in, st.Val, "an error message composed by the gateway names no connection id or expanded resource id")
+					}
+				}
+			}
+		})
+	}
 	for _, fn := range p.Repo {
 		if fn.Pkg == nil && fn.Parent() == nil {
 			continue
